@@ -149,6 +149,13 @@ def _enqueue_closure(ctx, adt):
 def r_enqueue_guard(ctx, rule='R01.4', need_min=False):
     for tag, adt in SOLVERS:
         b, c = _enqueue_closure(ctx, adt)
+        if not need_min:
+            # the cut-set is drained on EVERY path through enqueue_cutset: a shortcut that returns before (a "nothing left to do" flag set
+            # elsewhere, ..) silently drops the cut-set of a node that is still being processed
+            dc = [b.term_point(bb) for (bb, t) in b.calls_to('DecisionDiagram::drain_cutset')]
+            r0 = b.reach([(0, 0)], avoid=dc)
+            ctx.check(bool(dc) and not any(p_ in r0 for p_ in ret_points(b)), rule, tag + '/enqueue-always-drains', b, b.loc(0),
+                      'every path through enqueue_cutset drains the cut-set of the diagram', 'enqueue_cutset can return without draining the cut-set: the sub-problems of an inexact relaxed diagram are lost')
         pushes = c.calls_to('Fringe::push')
         lb = is_lb(ctx.F)
         child_ub = lambda t: M.contains(t, lambda x: is_subproblem_field(x, 'ub') and M.is_param(x[1]) and x[1][1] == c.name)
@@ -510,6 +517,9 @@ def r_check_then_act(ctx, rule='R03.b'):
             sites = wsites | gsites
             if not sites:
                 continue
+            # a guard that is bumped / temporarily unlocked is two acquisitions (a condvar wait is judged by R04.4: nothing is assumed after it)
+            for (bb, t) in body.calls(lambda t: _releases_lock(t) and 'Condvar' not in (t.get('callee') or '')):
+                sites = sites | {('released-and-re-acquired', bb)}
             ctx.check(len(sites) == 1, rule, 'one-acquisition/%s%s' % (name, '' if body is b else '::closure'), body, body.loc(0),
                       'all reads used in tests and all writes of Critical in this function go through one lock acquisition',
                       '%s reads/tests and writes Critical through %d different lock acquisitions (check-then-act across a release)' % (name, len(sites)))
@@ -671,6 +681,27 @@ def r_c04(ctx):
             ctx.check(is_subproblem_field(a[2], 'depth') and M.contains(a[2], lambda x: M.is_call(x, 'get_workload')), 'R04.8',
                       'notify-depth@%d' % nfc.index(worker.term_point(bb)), worker, worker.loc(bb),
                       'notify_node_finished receives the depth of the work item', 'depth argument is %s' % M.show(a[2]))
+        # the per-worker slot of the in-flight bounds is the worker's own: in get_workload and in notify_node_finished every write to
+        # upper_bounds[I] has I = the parameter that receives the worker id at the call sites above (slot 0 / another worker's slot would
+        # lose the bound of a node in flight: unsound ub at an abort, C05)
+        for (fb_, argpos) in ((gw, 1), (nf, 1)):
+            for (pt, dest, val, st) in writes(fb_):
+                if isinstance(dest, tuple) and dest[0] == 'index' and M.is_field(dest[1], 'upper_bounds', 'Critical'):
+                    ctx.check(M.is_param(dest[2], index=argpos) and dest[2][1] == fb_.name, 'R05.4', 'in-flight-slot-is-own/%s' % fb_.fn_name, fb_, fb_.loc(*pt),
+                              '%s writes the in-flight bound of the calling worker (upper_bounds[thread_id])' % fb_.fn_name,
+                              '%s writes upper_bounds[%s], not the slot of the calling worker' % (fb_.fn_name, M.show(dest[2])))
+        # ... the bound registered for a popped node is that node's ub, and the bound handed to abort_search is the ub of the work item
+        for (pt, dest, val, st) in writes(gw):
+            if isinstance(dest, tuple) and dest[0] == 'index' and M.is_field(dest[1], 'upper_bounds', 'Critical'):
+                ctx.check(is_subproblem_field(val, 'ub') and M.contains(val, lambda x: M.is_call(x, 'Fringe::pop')) or
+                          (is_subproblem_field(val, 'ub') and any(M.contains(d_, lambda x: M.is_call(x, 'Fringe::pop')) for d_ in var_def_terms(gw, val[1]))),
+                          'R05.4', 'in-flight-bound-is-popped-ub', gw, gw.loc(*pt),
+                          'the in-flight bound registered at pop is the ub of the popped node', 'get_workload registers %s as the in-flight bound of the popped node' % M.show(val)[:120])
+        for (bb, t) in worker.calls_to('abort_search'):
+            a = [worker.origin.operand(x, worker.term_point(bb)) for x in t['args']]
+            ubs = [x for x in a if is_subproblem_field(x, 'ub') and M.contains(x, lambda y: M.is_call(y, 'get_workload'))]
+            ctx.check(len(ubs) == 1, 'R05.4', 'abort-receives-work-item-ub', worker, worker.loc(bb),
+                      'abort_search receives the ub of the work item being processed', 'abort_search is called with (%s): none of them is the ub of the work item' % ', '.join(M.show(x)[:60] for x in a[1:]))
         # P8 spawn bound
         ga = worker.origin.operand(gwc[0][1]['args'][1], worker.term_point(gwc[0][0]))
         rng = [x for x in M.walk(ga) if isinstance(x, tuple) and x and x[0] == 'aggr' and x[1].endswith('Range')]
@@ -769,6 +800,11 @@ def _paths_to(gw, wp):
             if t['k'] == 'call' and (t.get('callee') or '').split('::')[-1] in ('push', 'pop', 'clear') and 'Fringe' in (t.get('callee') or ''):
                 if (b, len(gw.stmts(b))) != wp:
                     epoch += 1
+            if t['k'] == 'call' and (b, len(gw.stmts(b))) != wp and _releases_lock(t):
+                # the critical mutex is released and re-acquired here (MutexGuard::bump / unlocked, a condvar wait): whatever was tested
+                # before says nothing about the state after it — other workers have run in between
+                atoms = []
+                epoch += 1
             if t['k'] == 'call' and (b, len(gw.stmts(b))) != wp and k < len(blocks) - 1:
                 # writes to `ongoing` bump its version too (none before the wait today)
                 pass
@@ -785,6 +821,18 @@ def _paths_to(gw, wp):
     return {'n': n, 'feasible': feasible, 'bad_empty': bad_empty, 'bad_ongoing': bad_ongoing}
 
 
+def _releases_lock(t):
+    c = t.get('callee') or ''
+    last = c.split('::')[-1]
+    if 'MutexGuard' in c and last in ('bump', 'unlocked', 'unlocked_fair', 'unlock_fair', 'leak'):
+        return True
+    if 'Condvar' in c and last.startswith('wait'):
+        return True
+    if 'Mutex' in c and last in ('force_unlock', 'force_unlock_fair'):
+        return True
+    return False
+
+
 def _version(a, emap):
     return a
 
@@ -796,11 +844,48 @@ def _strip_sites(a, epoch):
     return a
 
 
+def _places_of(x):
+    """all place dicts inside an rvalue / operand JSON fragment"""
+    out = []
+    if isinstance(x, dict):
+        if 'l' in x and 'p' in x and isinstance(x['p'], list):
+            out.append(x)
+        for v in x.values():
+            out.extend(_places_of(v))
+    elif isinstance(x, list):
+        for v in x:
+            out.extend(_places_of(v))
+    return out
+
+
 def r_nb_threads(ctx):
     """P7: every writer of ParallelSolver.nb_threads re-establishes upper_bounds.len() == nb_threads; one idle marker"""
     F = ctx.F
     markers = []
     n_writers = 0
+    # every Vec of Critical that is indexed by the worker id (today: upper_bounds) — found, not listed: a per-worker table added later
+    # is subject to the same obligation
+    per_worker = {'upper_bounds'}
+    for wb_ in (ctx.body(PAR, 'get_workload'), ctx.body(PAR, 'notify_node_finished')):
+        for u_ in ctx.unit(wb_):
+            for bb_ in u_.live_blocks():
+                for i_, s_ in enumerate(u_.stmts(bb_)):
+                    if s_['k'] != 'assign':
+                        continue
+                    for pl_ in [s_['place']] + [x for x in _places_of(s_['rv'])]:
+                        fs_ = [e for e in pl_['p'] if isinstance(e, dict) and 'f' in e and (e.get('adt') or '').endswith('parallel::Critical')]
+                        ix_ = [e for e in pl_['p'] if isinstance(e, dict) and 'idx' in e]
+                        if fs_ and ix_ and pl_['p'].index(ix_[0]) > pl_['p'].index(fs_[-1]):
+                            it_ = u_.origin.place({'l': ix_[0]['idx'], 'p': []}, (bb_, i_))
+                            if M.is_param(it_, index=1) and it_[1] == wb_.name:
+                                per_worker.add(fs_[-1]['name'])
+            # Vec indexing is a call of Index / IndexMut
+            for (bb_, t_) in u_.calls_to('index', 'index_mut'):
+                a_ = [u_.origin.operand(x, u_.term_point(bb_)) for x in t_['args']]
+                if len(a_) == 2 and isinstance(a_[0], tuple) and a_[0] and a_[0][0] == 'field' and len(a_[0]) == 4 and (a_[0][3] or '').endswith('parallel::Critical') \
+                        and M.is_param(a_[1], index=1) and a_[1][1] == wb_.name:
+                    per_worker.add(a_[0][2])
+    extra_tables = sorted(per_worker - {'upper_bounds'})
     for body in F.bodies.values():
         if 'solver::parallel' not in body.name:
             continue
@@ -819,6 +904,10 @@ def r_nb_threads(ctx):
                     markers.append((body, (bb, i), ub[2][0]))
             ctx.check(ok, 'R04.7', 'ctor-len/' + (body.fn_name or '?'), body, body.loc(bb, i), 'constructor sizes upper_bounds with the same value as nb_threads',
                       'constructor builds upper_bounds with a length other than nb_threads')
+            for f_ in extra_tables:
+                tv = dict(ubs[0][3]).get(f_) if ubs else None
+                ctx.check(M.is_call(tv, 'from_elem') and tv[2][1] == n, 'R04.7', 'ctor-len/%s/%s' % (f_, body.fn_name or '?'), body, body.loc(bb, i),
+                          'constructor sizes the per-worker table %s with nb_threads' % f_, 'constructor builds the per-worker table %s with a length other than nb_threads' % f_)
         # later writes of the field
         fw = [(bb, i, s) for (bb, i, s) in body.assigns(lambda s: s['place']['p'] and isinstance(s['place']['p'][-1], dict)
                                                          and s['place']['p'][-1].get('name') == 'nb_threads' and (s['place']['p'][-1].get('adt') or '').endswith('ParallelSolver'))]
@@ -836,6 +925,11 @@ def r_nb_threads(ctx):
                 if M.is_field(a[0], 'upper_bounds', 'Critical') and a[1] == n:
                     ok = True
                     markers.append((body, body.term_point(cb), a[2]))
+            for f_ in extra_tables:
+                okf = any(M.is_field(dest, f_, 'Critical') and M.is_call(val, 'from_elem') and val[2][1] == n for (pt, dest, val, st) in writes(body)) or \
+                    any(M.is_field(body.origin.operand(ct['args'][0], body.term_point(cb)), f_, 'Critical') and body.origin.operand(ct['args'][1], body.term_point(cb)) == n for (cb, ct) in body.calls_to('resize'))
+                ctx.check(okf, 'R04.7', 'writer-len/%s/%s' % (f_, body.fn_name or '?'), body, body.loc(bb, i), '%s re-sizes the per-worker table %s together with nb_threads' % (body.fn_name, f_),
+                          '%s changes nb_threads without re-sizing Critical.%s, which workers index with their id: a worker with a high id panics out of bounds holding a unit of `ongoing`, the others wait forever' % (body.fn_name, f_))
             ctx.check(ok, 'R04.7', 'writer-len/' + (body.fn_name or '?'), body, body.loc(bb, i),
                       '%s re-sizes upper_bounds together with nb_threads' % body.fn_name,
                       '%s changes nb_threads without re-sizing Critical.upper_bounds (indexed by worker id): a worker indexes out of bounds, panics '
@@ -946,6 +1040,10 @@ def r_abort(ctx):
                       'ParallelSolver::abort_search stores a bound that ignores the nodes still in flight on other workers (upper_bounds is not read): lb can end above ub')
             ctx.check(has_top, 'R05.4', 'abort-bound/fringe-top#%d' % n, asb, asb.loc(*pt), 'the stored bound covers the open sub-problems (top of the fringe)',
                       'ParallelSolver::abort_search stores a bound that ignores the sub-problems still on the fringe (dropped by clear())')
+            # ... and the incumbent: another worker may have found a value above every piece of open work after this node was popped
+            has_lb = any(is_lb(ctx.F)(x) for x in items)
+            ctx.check(has_lb, 'R05.4', 'abort-bound/incumbent#%d' % n, asb, asb.loc(*pt), 'the stored bound is at least the incumbent (max with best_lb)',
+                      'ParallelSolver::abort_search stores a bound that ignores the incumbent: when another worker has already found a value above the open work, ub ends below lb and below the optimum')
             ctx.check(prev, 'R05.4', 'abort-bound/previous#%d' % n, asb, asb.loc(*pt), 'a second abort can only raise the stored bound (max with the previous one, or first abort)',
                       'best_ub is overwritten without max-combining the previously stored bound')
         # an abort may leave best_ub untouched (first recorded bound stands) only if that bound can only have been written by an
